@@ -309,7 +309,11 @@ def extend_summary(ctx, a, paths, cmd, opts, d, cond, o_before_snapshot, faulty)
     unk = d['_unknown']
     space = d.setdefault('_space', {})
     healthy = cond == 'healthy'
-    if cmd == 'check':
+    # state_config: a -d filter that names neither a data disk nor a parity is a configuration error (exit before the lock)
+    fdn = [opts[i + 1] for i, x in enumerate(opts) if x == '-d']
+    if any(n not in a.disks and n not in LEVNAME[:a.np] for n in fdn):
+        d['conf_ok'] = False
+    if cmd in ('check', 'fix'):
         if healthy and not faulty:
             d['check_errors'] = False
         else:
